@@ -77,3 +77,17 @@ EDITS += [
     {'id': 'prepended-rate-positive-constant', 'expect': 'fire', 'rule': 'C04.O2', 'file': 'spowtd/classify.py', 'old': '        ([0], (zeta_mm[1:] - zeta_mm[:-1])', 'new': '        ([1e9], (zeta_mm[1:] - zeta_mm[:-1])'},
     {'id': 'prepended-rate-negative', 'expect': 'silent', 'file': 'spowtd/classify.py', 'old': '        ([0], (zeta_mm[1:] - zeta_mm[:-1])', 'new': '        ([-1.0], (zeta_mm[1:] - zeta_mm[:-1])'},
 ]
+
+_LOOP_OLD = ("    for i in range(len(mystery_jump_mask)):\n        if is_raining[i]:\n            in_mystery = False\n        else:\n"
+             "            if is_jump[i]:\n                in_mystery = True\n        mystery_jump_mask[i] = in_mystery\n")
+EDITS += [
+    {"id": "automaton-enumerate-zip", "expect": "silent", "file": C, "old": _LOOP_OLD,
+     "new": "    for i, (jump, raining) in enumerate(zip(is_jump, is_raining)):\n        if raining:\n            in_mystery = False\n        elif jump:\n"
+            "            in_mystery = True\n        mystery_jump_mask[i] = in_mystery\n"},
+    {"id": "automaton-enumerate-zip-roles-swapped", "expect": "fire", "rule": "C04.O1", "file": C, "old": _LOOP_OLD,
+     "new": "    for i, (raining, jump) in enumerate(zip(is_jump, is_raining)):\n        if raining:\n            in_mystery = False\n        elif jump:\n"
+            "            in_mystery = True\n        mystery_jump_mask[i] = in_mystery\n"},
+    {"id": "automaton-enumerate-skips-first", "expect": "fire", "rule": "C04.O1", "file": C, "old": _LOOP_OLD,
+     "new": "    for i, (jump, raining) in enumerate(zip(is_jump[1:], is_raining[1:])):\n        if raining:\n            in_mystery = False\n        elif jump:\n"
+            "            in_mystery = True\n        mystery_jump_mask[i] = in_mystery\n"},
+]
